@@ -484,6 +484,40 @@ def context_product(tier="quick"):
         ok = "    (println total)\n"
         body = "    let total: int = 4\n" + '    (println "SENTINEL")\n' + pl.replace("@S", ok) + "    return 0\n"
         yield "seed", "placement [%s] with a well-formed statement" % pn, head + "fn main() -> int {\n" + body + "}\nshadow main { assert true }\n"
+    # nominal struct typing (return / let / set / argument of ANOTHER struct type) after every scope-shaping context, in a
+    # function that returns a struct
+    nom_head = head + "struct CQ { x: int }\nfn takes_cp(p: CP) -> int { return p.x }\nshadow takes_cp { assert true }\n"
+    NOMINAL = {
+        "return of another struct type": "    return CQ { x: 2 }\n",
+        "let of another struct type": "    let w: CP = CQ { x: 2 }\n    return w\n",
+        "set to another struct type": "    let mut w: CP = CP { x: 1 }\n    set w CQ { x: 2 }\n    return w\n",
+        "argument of another struct type": "    (println (takes_cp CQ { x: 2 }))\n    return CP { x: 1 }\n",
+        "returned variable of another struct type": "    let q: CQ = CQ { x: 2 }\n    return q\n",
+    }
+    for cn, ctx in CONTEXTS.items():
+        if "return 9" in ctx:
+            ctx = ctx.replace("return 9", "return CP { x: 9 }")
+        for desc, stmt in NOMINAL.items():
+            src = (nom_head + "fn mkcp(seed: int) -> CP {\n    let total: int = seed\n" + ctx + stmt + "}\nshadow mkcp { assert true }\n"
+                   'fn main() -> int {\n    (println "SENTINEL")\n    let r: CP = (mkcp 4)\n    (println r.x)\n    return 0\n}\nshadow main { assert true }\n')
+            yield "struct-type", "%s after [%s]" % (desc, cn), src
+        src = (nom_head + "fn mkcp(seed: int) -> CP {\n    let total: int = seed\n" + ctx + "    return CP { x: total }\n}\nshadow mkcp { assert true }\n"
+               'fn main() -> int {\n    (println "SENTINEL")\n    let r: CP = (mkcp 4)\n    (println r.x)\n    return 0\n}\nshadow main { assert true }\n')
+        yield "seed", "struct-returning function with context [%s]" % cn, src
+    # argument types are checked per position, whatever kind of parameter precedes or follows: every ordered pair of
+    # parameter kinds, the wrong argument in the first and in the second position
+    PK = {"int": ("int", "1", '"s"'), "string": ("string", '"s"', "1"), "bool": ("bool", "true", "1"), "float": ("float", "1.5", '"s"'),
+          "struct": ("CP", "CP { x: 1 }", "1"), "array": ("array<int>", "[1, 2]", '"s"'), "union": ("CU", "CU.A { v: 1 }", "1"),
+          "function": ("fn(int) -> int", "pk_inc", '"s"'), "opaque": ("PKHandle", "0", '"s"'), "enum": ("PKE", "PKE.A", '"s"')}
+    pk_head = head + "opaque type PKHandle\nenum PKE { A, B }\nfn pk_inc(a: int) -> int { return (+ a 1) }\nshadow pk_inc { assert true }\n"
+    for k0, (t0, ok0, bad0) in PK.items():
+        for k1, (t1, ok1, bad1) in PK.items():
+            decl = "fn pk2(p0: %s, p1: %s) -> int { return 1 }\nshadow pk2 { assert true }\n" % (t0, t1)
+            for pos, a0, a1 in ((0, bad0, ok1), (1, ok0, bad1)):
+                src = pk_head + decl + 'fn main() -> int {\n    (println "SENTINEL")\n    (println (pk2 %s %s))\n    return 0\n}\nshadow main { assert true }\n' % (a0, a1)
+                yield "argument-type", "parameters (%s, %s): wrong argument in position %d" % (k0, k1, pos + 1), src
+            src = pk_head + decl + 'fn main() -> int {\n    (println "SENTINEL")\n    (println (pk2 %s %s))\n    return 0\n}\nshadow main { assert true }\n' % (ok0, ok1)
+            yield "seed", "parameters (%s, %s) with well-typed arguments" % (k0, k1), src
     # a function that declares a result must return one on every path
     for desc, body in MISSING_RETURN:
         yield "missing-return", desc, head + "fn g(a: int) -> int {\n" + body + "}\nshadow g { assert true }\nfn main() -> int {\n    (println \"SENTINEL\")\n    (println (g 1))\n    return 0\n}\nshadow main { assert true }\n"
